@@ -51,6 +51,20 @@ PN_MSG = {'file': 'parameter_number_message.rs',
           'drop': ['impl <T:ShortMessageFactory>From<ParameterNumberMessage>for[Option<T>;4]'],
           'why': {'*': 'a trait impl cannot carry the `requires` its callee needs: proved by Kani (k_frame) as from(m) == m.to_short_messages(MsbFirst)'}}
 
+def gen_lsb_lemma(repo):
+    """C16: one ensures clause per `X_LSB` constant of the *current* source that has a base constant `X`"""
+    import os
+    import re
+    src = open(os.path.join(repo, 'src', 'controller_number_mod.rs')).read()
+    names = re.findall(r'pub const (\w+): ControllerNumber', src)
+    pairs = [(n[:-4], n) for n in names if n.endswith('_LSB') and n[:-4] in names]
+    if not pairs:
+        return None
+    body = ',\n'.join('        controller_numbers::%s.0 == controller_numbers::%s.0 + 32' % (l, b) for b, l in pairs)
+    return (['C16'], 'C16: every *_LSB constant is its MSB constant + 32 (%d pairs found in the source)' % len(pairs),
+            'pub proof fn c16_lsb_constants()\n    ensures\n%s,\n{}\n' % body)
+
+
 UNITS = {
     'v_cc14': {
         'name': 'v_cc14',
@@ -65,6 +79,7 @@ UNITS = {
         'reprs': REPRS,
         'files': COMMON_FILES + [CC14_MSG, PN_MSG],
         'contracts': ['common.vc', 'cc14_msg.vc', 'pn_msg.vc', 'v_msg.vc'],
+        'gen_preludes': [gen_lsb_lemma],
     },
     'v_nrpn': {
         'name': 'v_nrpn',
